@@ -512,6 +512,10 @@ func (u *Unit) updPath(cell string, path []acc, v string) string {
 }
 
 func (u *Unit) writeLoc(st *State, l *Loc, v string) {
+	if v == "" {
+		// e.g. the address of a field (&x.f) stored in the heap: interior pointers have no first-class value here
+		u.unsup("storing a value without a term (an interior pointer such as &x.f?) into %s", l.Heap)
+	}
 	h := u.heapCur(st, l.Heap)
 	switch len(l.Idx) {
 	case 1:
